@@ -47,6 +47,17 @@ package crlloader
 //@   props C20
 //@   requires L != nil
 //@   pure
+//@   ensures[C20] err == nil ==> ret == normUrl(L.UrlString)
+
+// The store of a location is named after the digest of the location exactly as configured / as written in the
+// certificate (after url.Parse normalisation): same location, same store across restarts; no folding of distinct
+// locations onto one store other than through the hash.
+//@ func URLLoader.GetCRLLocationIdentifier
+//@   props C20
+//@   ensures[C20] id_is_digest_of_the_location: err == nil ==> ret == locId(normUrl(L.UrlString))
+//@ func FileLoader.GetCRLLocationIdentifier
+//@   props C20
+//@   ensures[C20] id_is_digest_of_the_location: err == nil ==> ret == locId(f.FileName)
 //@ func URLLoader.downloadCRL
 //@   props C17 C20
 //@   requires L != nil
